@@ -48,6 +48,7 @@ def run(ctx):
     rep.rule("C14.R5", "list/callee co-definition (non-contact, non-E_pot families)", 40)
     rep.rule("C14.R6", "scatter method m calls contr.m (frozen exception table)", 60)
     rep.rule("C14.R8", "accumulation into index sets that may repeat an index (uDOF/qDOF of interactions) is unbuffered (np.add.at / COO)", 1)
+    rep.rule("C14.R11", "System state that evaluation methods fill in (memoised conversions, lists) is re-initialised by assemble()", 1)
     rep.rule("C14.R10", "a contribution's stored initial state (q0 / u0) is written from its OWNED index set (my_qDOF / my_uDOF), the set the layout was built from", 2)
     rep.rule("C14.R9", "the name that is inserted into the registry has been tested for uniqueness after its last change", 2)
     rep.rule("C14.R7", "repeatability: marker attributes are constructor data; the unique-name counter is monotone", 12)
@@ -60,6 +61,7 @@ def run(ctx):
     r7_markers_and_counter(ctx, sm)
     r9_final_name_unique(ctx, sm)
     r10_state_writeback(ctx, sm)
+    r11_evaluation_state(ctx, sm)
 
 
 # --------------------------------------------------------------------------
@@ -518,6 +520,70 @@ def _r8_add_at(ctx, sm):
                         rep.ok("C14.R8", construct, f"{norm_src(call)[:90]}: unbuffered accumulation on {loop.var}.{k}DOF")
 
 
+SETUP_METHODS = {"__init__", "assemble", "add", "remove", "pop", "extend", "deepcopy", "set_new_initial_state", "assembler_callback", "reset",
+                 "set_tau", "set_tau_from_dict", "export", "get_contribution_list"}
+
+
+def r11_evaluation_state(ctx, sm):
+    """'calling assemble again ... leaves the layout and every evaluation unchanged' and evaluations follow the current contributions:
+    an attribute of System that an EVALUATION method writes (a memo dict, a remembered conversion) survives a re-assembly unless
+    assemble() itself (or a method assemble calls) re-creates it."""
+    rep = ctx.rep
+    methods = sm.system.methods
+    asm = methods.get("assemble")
+    if asm is None:
+        raise AnalysisError("System.assemble vanished")
+    # attributes (re)bound by assemble and by the System methods it calls
+    rebound = set()
+    work, seen = [asm], set()
+    while work:
+        f = work.pop()
+        if id(f) in seen:
+            continue
+        seen.add(id(f))
+        for w in ast.walk(f):
+            if isinstance(w, ast.Assign):
+                for t in w.targets:
+                    for tt in (t.elts if isinstance(t, (ast.Tuple, ast.List)) else [t]):
+                        if isinstance(tt, ast.Attribute) and isinstance(tt.value, ast.Name) and tt.value.id == "self":
+                            rebound.add(tt.attr)
+            if isinstance(w, ast.Call) and isinstance(w.func, ast.Attribute) and isinstance(w.func.value, ast.Name) and w.func.value.id == "self" and w.func.attr in methods:
+                work.append(methods[w.func.attr])
+    n = 0
+    for mname, fn in methods.items():
+        if mname in SETUP_METHODS:
+            continue
+        written = {}
+        for w in walk_no_nested(fn):
+            tg = []
+            if isinstance(w, ast.Assign):
+                tg = w.targets
+            elif isinstance(w, ast.AugAssign):
+                tg = [w.target]
+            for t in tg:
+                for tt in (t.elts if isinstance(t, (ast.Tuple, ast.List)) else [t]):
+                    base = tt
+                    while isinstance(base, ast.Subscript):
+                        base = base.value
+                    if isinstance(base, ast.Attribute) and isinstance(base.value, ast.Name) and base.value.id == "self":
+                        written.setdefault(base.attr, w)
+            if isinstance(w, ast.Call) and isinstance(w.func, ast.Attribute) and w.func.attr in ("append", "extend", "setdefault", "update", "add") \
+                    and isinstance(w.func.value, ast.Attribute) and isinstance(w.func.value.value, ast.Name) and w.func.value.value.id == "self":
+                written.setdefault(w.func.value.attr, w)
+        for a, node in sorted(written.items()):
+            n += 1
+            C = f"{SYS}:System.{mname}"
+            mangled = a if not a.startswith("__") else "_System" + a
+            if a in rebound or mangled in rebound:
+                rep.ok("C14.R11", C, f"self.{a} is written here and re-created by assemble()")
+            else:
+                rep.bad("C14.R11", C, node, f"the evaluation method `{mname}` stores into `self.{a}`, which assemble() never re-creates: what was remembered for the previous set of "
+                        "contributions (e.g. a converted mass matrix) is handed out again after contributions were added / removed and the system was re-assembled",
+                        f"{SYS}:{node.lineno}")
+    if n == 0:
+        rep.ok("C14.R11", f"{SYS}:System", "no evaluation method of System writes an attribute of the system (nothing can go stale)", trivial=False)
+
+
 def r10_state_writeback(ctx, sm):
     """assemble() builds system.q0 by concatenating contr.q0 over the contributions that own coordinates and gives each of them
     my_qDOF = that slice.  Whatever writes contr.q0 / contr.u0 back must therefore read exactly that slice: qDOF / uDOF of an
@@ -667,6 +733,12 @@ MUTANTS += [
          new="        for contr in self.contributions:\n            if hasattr(contr, \"nq\"):\n                contr.q0 = self.q0[contr.qDOF]\n            if hasattr(contr, \"nu\"):\n                contr.u0 = self.u0[contr.uDOF]\n\n    def assembler_callback(self):\n        for contr in self.__assembler_callback_contr:", expect="C14.R10"),
     dict(id="c14-r10-2", what="set_new_initial_state writes u0 from uDOF", file=SYS,
          old="                contr.u0 = u0[contr.my_uDOF]", new="                contr.u0 = u0[contr.uDOF]", expect=["C14.R10", "C24.R3"]),
+]
+MUTANTS += [
+    dict(id="c14-r11-seed", canary=True, what="[seeded by sub-agent] System.M remembers the converted constant mass matrix in a dict that assemble() never clears", file=SYS,
+         edits=[(SYS, "        self.contributions_map = {}\n        self.ncontr = 0\n", "        self.contributions_map = {}\n        self.ncontr = 0\n        self._M0_formats = {}\n"),
+                (SYS, "    def M(self, t, q, format=\"coo\"):\n", "    def _M0_asformat(self, format):\n        if format not in self._M0_formats:\n            self._M0_formats[format] = self._M0.asformat(format)\n        return self._M0_formats[format]\n\n    def M(self, t, q, format=\"coo\"):\n")],
+         expect="C14.R11"),
 ]
 NEUTRAL = [
     dict(id="c14-n1", canary=True, what="rename loop-local and reformat", file=SYS,
